@@ -219,14 +219,15 @@ def parameter_elasticities(
     for par in to_scan:
         old = model.get_parameter_values()[par]
 
-        model.update_parameters({par: old * (1 + displacement)})
-        upper = model.get_fluxes(variables=variables, time=time)
+        try:
+            model.update_parameters({par: old * (1 + displacement)})
+            upper = model.get_fluxes(variables=variables, time=time)
 
-        model.update_parameters({par: old * (1 - displacement)})
-        lower = model.get_fluxes(variables=variables, time=time)
-
-        # Reset
-        model.update_parameters({par: old})
+            model.update_parameters({par: old * (1 - displacement)})
+            lower = model.get_fluxes(variables=variables, time=time)
+        finally:
+            # Reset, also when a flux evaluation raises
+            model.update_parameters({par: old})
         elasticity_coef = (upper - lower) / (2 * displacement * old)
         if normalized:
             elasticity_coef *= old / model.get_fluxes(variables=variables, time=time)
